@@ -31,7 +31,7 @@ ASSUMPTIONS = [
 PROBES = ["dirruns", "inputs_ge_3", "cross_file_var_ref", "stale_output_present", "repeat_run_checked", "enum_runs",
           "fault:non-utf8", "fault:empty", "fault:dir-named-css", "fault:dangling-link", "fault:unserialisable",
           "fault:eacces", "fault:eio", "fault:late-unserialisable", "fault:out-is-dir", "fault:eacces-out",
-          "fault_first", "fault_middle", "fault_last", "cm_named_input_present", "late_fault_defines_props_others_reference", "symlinked_stylesheet_input", "duplicate_content_files", "same_translucent_text_in_several_files", "bom_files", "dirruns_in_one_process", "outputs_reencoded_between_runs", "hard_linked_stylesheet_names", "heavy_trees", "intrinsically_bad_entries_judged", "imports_of_sibling_stylesheets", "dirruns_stderr_none", "dirruns_in_thread", "dirruns_fd_headroom",
+          "fault_first", "fault_middle", "fault_last", "cm_named_input_present", "late_fault_defines_props_others_reference", "symlinked_stylesheet_input", "duplicate_content_files", "same_translucent_text_in_several_files", "same_colour_with_annotated_value_in_several_files", "bom_files", "dirruns_in_one_process", "outputs_reencoded_between_runs", "hard_linked_stylesheet_names", "heavy_trees", "intrinsically_bad_entries_judged", "imports_of_sibling_stylesheets", "dirruns_stderr_none", "dirruns_in_thread", "dirruns_fd_headroom",
           "outputs_compared"]
 
 FAULT_KINDS = ("non-utf8", "empty", "dir-named-css", "dangling-link", "unserialisable", "eacces", "eio",
@@ -159,6 +159,20 @@ def generate(rseed, tier, idx):
                 tree[n]["ast"]["items"].append({"t": "rule", "sel": ".alpha%d" % g.randrange(100), "decls": decls})
                 tree[n]["text"] = gen.render(tree[n]["ast"])
                 tree[n]["same_alpha"] = True
+    # the SAME text colour in several files, in one of them as the fallback of an undefined custom property with an
+    # annotation (comment) inside the declaration value: whatever is kept per replacement colour (a parsed value, a token
+    # list, a formatted string) while such a declaration is rewritten must not reach the other files' declarations
+    if len(tree) >= 2 and g.random() < 0.3:
+        col = g.choice(("#777777", "#777", "#999999", "rgb(119, 119, 119)", "#8a8a8a"))
+        forms = ["/* brand */ var(--cmt-undefined, %s)", "var(--cmt-undefined, %s) /* muted */", "var(--cmt-undefined,%s)/*x*/"]
+        first = True
+        for n in sorted(tree):
+            if tree[n].get("ast") and (first or g.random() < 0.8):
+                v = (g.choice(forms) % col) if (first or g.random() < 0.4) else g.choice((col, col, "var(--cmt-undefined, %s)" % col))
+                first = False
+                tree[n]["ast"]["items"].append({"t": "rule", "sel": ".cmt%d" % g.randrange(100), "decls": [{"p": "color", "v": v, "imp": ""}]})
+                tree[n]["text"] = gen.render(tree[n]["ast"])
+                tree[n]["same_colour_annotated"] = True
     # byte-identical copies of a stylesheet elsewhere in the tree (vendored copy, dist/ mirror)
     if g.random() < 0.3:
         src = g.choice(sorted(tree))
@@ -553,6 +567,8 @@ def execute(trace):
                     bump("duplicate_content_files")
                 if trace["tree"].get(rel, {}).get("same_alpha"):
                     bump("same_translucent_text_in_several_files")
+                if trace["tree"].get(rel, {}).get("same_colour_annotated"):
+                    bump("same_colour_with_annotated_value_in_several_files")
                 if trace["tree"].get(rel, {}).get("text", "").startswith("\ufeff"):
                     bump("bom_files")
                 if before.get(_out_of(rel)) is not None:
